@@ -51,6 +51,49 @@ def value_classes(P) -> dict[str, list[str]]:
     return out
 
 
+def dataclass_init_fields(P, name: str) -> list[tuple[str, ast.expr | None]] | None:
+    """[(field, default)] in constructor order for a @dataclass class of the program (fields of the bases first, `init=False` fields
+    left out), or None if the class is not a plain dataclass (own __init__ / __post_init__ / __getattr__ / __setattr__ somewhere in
+    its MRO, or a base that is not a dataclass of the program)."""
+    out: list[tuple[str, ast.expr | None]] = []
+    seen: dict[str, int] = {}
+    mro = [c for c in P.mro(name) if c != "object"]
+    for c in reversed(mro):
+        ci = P.classes.get(c)
+        if ci is None:
+            return None
+        if any(m in ci.methods for m in ("__init__", "__post_init__", "__getattr__", "__getattribute__", "__setattr__", "__new__")):
+            return None
+        if not any(d.split("(")[0].split(".")[-1] == "dataclass" for d in ci.decorators):
+            if not out:
+                return None  # the root of the hierarchy must be a dataclass
+            continue  # an undecorated subclass inherits the constructor; its annotated class attributes are not fields
+        for st in ci.node.body:
+            if not (isinstance(st, ast.AnnAssign) and isinstance(st.target, ast.Name)):
+                continue
+            if "ClassVar" in ast.unparse(st.annotation):
+                continue
+            init, default = True, st.value
+            if isinstance(st.value, ast.Call) and _last(st.value.func) == "field":
+                default = None
+                for k in st.value.keywords:
+                    if k.arg == "init" and isinstance(k.value, ast.Constant) and k.value.value is False:
+                        init = False
+                    if k.arg == "default":
+                        default = k.value
+            f = st.target.id
+            if f in seen:
+                if not init:
+                    out[seen[f]] = (None, None)  # re-declared without init: no constructor position any more
+                else:
+                    out[seen[f]] = (f, default)
+                continue
+            if init:
+                seen[f] = len(out)
+                out.append((f, default))
+    return [(f, d) for f, d in out if f is not None]
+
+
 def record_classes(P) -> dict[str, list[tuple[str, ast.expr | None]]]:
     """name -> [(field, default)] for every NamedTuple class of the program that declares fields only (no methods)."""
     out = {}
